@@ -4913,3 +4913,109 @@ def cli17(ctx):
     if n < 1:
         raise AnchorMissing("CLI-17: no AscaJson built from get_orig_words found in from_seq")
     return r
+
+
+# ---------------------------------------------------------------- TAB-13: a table entry spelled base+diacritic is base plus that diacritic
+
+def tab13(ctx):
+    """The word reader takes the longest grapheme of src/cardinals.json first. A table key that is itself `<another key> +
+    <diacritic(s)>` (β̞, ɺ̪) is therefore what the text `β` `̞` reads as -- while the renderer writes the very same text for
+    the bundle it gets by APPLYING the diacritic to β (Segment::set_feat semantics, FType::to_node_mask, the Place
+    layout). If the table's bundle for the composite key is not that bundle, a segment a rule produced is written as
+    text that reads back as a different segment: parse(render(w)) != w, and a staged run diverges from a single run."""
+    from engine_tab import node_mask_table, place_consts
+    r = RuleResult("TAB-13", "src/cardinals.json: every key that is another key followed by diacritics has the bundle obtained by applying those diacritics to that key's bundle (or the diacritic is vacuous there / its prerequisites fail)", floor=30)
+    _, tbl = node_mask_table(ctx)
+    pc = place_consts(ctx)
+    need = ("LAB_BIT", "COR_BIT", "DOR_BIT", "PHR_BIT", "LAB_OFF", "COR_OFF", "DOR_OFF", "LAB_MSK", "COR_MSK", "DOR_MSK", "PHR_MSK")
+    if any(k not in pc for k in need) or len(tbl) < 20:
+        raise AnchorMissing("TAB-13: Place constants / FType::to_node_mask table not found")
+    cj = json.loads(ctx.read("src/cardinals.json"))
+    dj = json.loads(ctx.read("src/diacritics.json"))
+    SUB = {"Labial": ("LAB_BIT", "LAB_OFF", "LAB_MSK"), "Coronal": ("COR_BIT", "COR_OFF", "COR_MSK"), "Dorsal": ("DOR_BIT", "DOR_OFF", "DOR_MSK"), "Pharyngeal": ("PHR_BIT", None, "PHR_MSK")}
+    BYTE = {"Root": "root", "Manner": "manner", "Laryngeal": "laryngeal"}
+    presence = pc["LAB_BIT"] | pc["COR_BIT"] | pc["DOR_BIT"] | pc["PHR_BIT"]
+
+    def get_node(seg, node):
+        if node in BYTE:
+            return seg[BYTE[node]]
+        bit, off, msk = SUB[node]
+        p = seg["place"]
+        if not p or not (p & pc[bit]):
+            return None
+        return (p >> (pc[off] if off else 0)) & pc[msk]
+
+    def set_node(seg, node, val):
+        seg = dict(seg)
+        if node in BYTE:
+            seg[BYTE[node]] = val
+            return seg
+        bit, off, msk = SUB[node]
+        p = seg["place"] or 0
+        sh = pc[off] if off else 0
+        if val is None:
+            p &= ~(pc[bit] | (pc[msk] << sh))
+        else:
+            p = (p & ~(pc[msk] << sh)) | pc[bit] | ((val & pc[msk]) << sh)
+        seg["place"] = p if (p & presence) else None
+        return seg
+
+    def apply(seg, payload):
+        for k, v in (payload or {}).items():
+            if k in SUB:
+                seg = set_node(seg, k, 0 if v else None)
+                continue
+            if k in BYTE or k == "Place":
+                continue
+            node, mask, _ = tbl[k]
+            n_ = get_node(seg, node)
+            if v:
+                seg = set_node(seg, node, (n_ or 0) | mask)
+            elif n_ is not None:
+                seg = set_node(seg, node, n_ & ~mask)
+        return seg
+
+    def meets(seg, pre):
+        for k, v in (pre or {}).items():
+            if k in SUB:
+                if (get_node(seg, k) is not None) != v:
+                    return False
+                continue
+            if k in BYTE or k == "Place":
+                continue
+            node, mask, _ = tbl[k]
+            n_ = get_node(seg, node)
+            if n_ is None or (v and (n_ & mask) != mask) or ((not v) and (n_ & mask) != 0):
+                return False
+        return True
+    dia = {x["diacrit"]: x for x in dj}
+    n = 0
+    for K, v in cj.items():
+        for cut in range(len(K) - 1, 0, -1):
+            B, rest = K[:cut], K[cut:]
+            if B in cj and all(ch in dia for ch in rest):
+                n += 1
+                seg = dict(cj[B])
+                ok = True
+                for ch in rest:
+                    if not meets(seg, dia[ch]["prereqs"]):
+                        ok = False
+                        break
+                    seg = apply(seg, dia[ch]["payload"])
+                want = {"root": v.get("root"), "manner": v.get("manner"), "laryngeal": v.get("laryngeal"), "place": v.get("place")}
+                base = {"root": cj[B].get("root"), "manner": cj[B].get("manner"), "laryngeal": cj[B].get("laryngeal"), "place": cj[B].get("place")}
+                seg = {k_: seg.get(k_) for k_ in want}
+                if not ok or seg == base:
+                    r.inst("%s: the reader's prerequisites fail on %s / the diacritic changes nothing there -- no text collision" % (K, B), "src/cardinals.json", "ok", nontrivial=False)
+                elif seg == want:
+                    r.inst("%s = %s + %s" % (K, B, " ".join("U+%04X" % ord(c) for c in rest)), "src/cardinals.json", "ok")
+                else:
+                    diff = [f for f in ("root", "manner", "laryngeal", "place") if seg[f] != want[f]]
+                    r.inst("%s != %s + %s" % (K, B, " ".join("U+%04X" % ord(c) for c in rest)), "src/cardinals.json", "report")
+                    r.report("TAB-13|%s" % K, "src/cardinals.json", "CARDINALS_MAP",
+                             "the table entry `%s` is not `%s` with the diacritic(s) applied (%s): a rule that gives %s the diacritic's features produces a segment the renderer spells `%s`, and that text reads back as the table entry -- a different segment"
+                             % (K, B, ", ".join("%s %s vs %s" % (f, seg[f], want[f]) for f in diff), B, K))
+                break
+    if n < 30:
+        raise AnchorMissing("TAB-13: %d composite keys in cardinals.json (expected >= 30)" % n)
+    return r
